@@ -370,10 +370,6 @@ def execute(cell, e, ch):
     return res, rec
 
 
-def _cls(cell):
-    return 'typeless' if cell.code in TYPELESS else ('bodiless' if cell.code in BODILESS else 'bearing')
-
-
 def judge(cell, e, res, rec):
     """-> list of (kind, extra-sig dict, explanation)."""
     out = []
@@ -540,9 +536,12 @@ def judge_close(cell, e, rec, faults):
     if cell.kind == 'gen' and begun and rec.finalized != 1:
         out.append(('generator-not-finalized', {}, 'generator was started but its finally block ran %d times (faults %r)'
                     % (rec.finalized, faults)))
-    if cell.kind in ('file', 'file_nc') and begun and cell.stack == 'wsgi':
-        pass
     return out
+
+
+FAULT_DEPENDENT = frozenset(['close-count', 'generator-not-finalized', 'body-under-fault', 'exception-escaped',
+                             'protocol', 'no-start', 'loop-error', 'sse-count', 'sse-event',
+                             'content-length-streamed'])
 
 
 def first_fault(rec):
@@ -571,8 +570,9 @@ def run_cell(cell, bound, rep, wide=False):
         choices = list(ch.choices) if ch is not None else []
         for kind, extra, msg in viols:
             # status form: only "line with a non-standard reason" vs. the rest matters to the code paths
+            # the fault class is part of the kind only where the failure depends on the fault
             sig = {'kind': kind, 'stack': cell.stack, 'status': 'custom' if cell.form == 'custom' else 'standard',
-                   'fault': first_fault(rec)}
+                   'fault': first_fault(rec) if kind in FAULT_DEPENDENT else 'none'}
             if kind == 'bodiless-has-body':
                 sig['why'] = 'status' if cell.code in BODILESS else 'HEAD'
             if kind in ('close-count', 'generator-not-finalized', 'body-under-fault'):
